@@ -1,7 +1,59 @@
 import Hs.Model.Vx
+import Hs.Model.Units
 namespace Hs.Drv.C15
+open Hs Hs.Vx Hs.Units Hs.Gen.Units
+
+def bytesOfH (t : String) : Option (List UInt8) := bytesOfHex t
+
+/-- a float literal of the table as `nl H(literal) -` (evaluated by `hsverif canon` with Rust's own `f64`
+parser) -/
+def litTok (cs : List Char) : String := s!"nl {H cs} -"
+
+def dimsTok : Option (List Int) → String
+  | none => "-"
+  | some ds => ",".intercalate (ds.map toString)
+
+def showUnit (u : Row) : String :=
+  s!"{H (name u)} {H (symbol u)} {u.ids.length} {" ".intercalate (u.ids.map H)} {HO u.quantity} {dimsTok u.dims} S {litTok u.scale} O {litTok u.offset}"
+
+/-- `get H(s)` → the unit `get_unit(s)` returns, or `none` -/
+def getReq (ts : List String) : String :=
+  match pH ts with
+  | none => "bad-request"
+  | some (s, _) =>
+    match getUnit s with
+    | none => "none"
+    | some u => "ok " ++ showUnit u
+
+/-- `lex HEX(text)` → how `parse_number` splits the text: `ok nl H(decimal ++ exponent) H(symbol)|-` (the lexeme
+is evaluated by `hsverif canon` exactly as `parse_number` does), `err` when the unit text is no id (or the
+exponent test fails at end of input) -/
+def lexReq (ts : List String) : String :=
+  match ts with
+  | t :: _ =>
+    match bytesOfH t with
+    | none => "bad-request"
+    | some bs =>
+      match lexNumber bs with
+      | .ok (l, u) =>
+        let us := match u with
+          | none => "-"
+          | some u => H (symbol u)
+        s!"ok nl {hexOfBytes (l.dec ++ l.exp.getD [])} {us}"
+      | _ => "err"
+  | [] => "bad-request"
+
+/-- `count` → number of unit statics and of `UNITS` entries -/
+def countReq : String := s!"ok {units.length} {entries.length}"
 
 /-- requests `C15 <cmd> ...` (tokens after the property id) -/
-def handle (_ts : List String) : String := "bad-request"
+def handle (ts : List String) : String :=
+  match ts with
+  | cmd :: rest =>
+    if cmd = "get" then getReq rest
+    else if cmd = "lex" then lexReq rest
+    else if cmd = "count" then countReq
+    else "bad-request"
+  | [] => "bad-request"
 
 end Hs.Drv.C15
